@@ -254,6 +254,14 @@ def gen_shape(rng, kinds=("rect", "circ", "poly"), scale=1.0, centered=True, off
             v = [[-a, -b], [a, -b], [a, b], [a - w, b], [a - w, -b + w], [-a + w, -b + w], [-a + w, b], [-a, b]]
         else:
             v = [[-a, -b], [a, -b], [a, -b + w], [-a + w, -b + w], [-a + w, b], [-a, b]]
+        for _ in range(rng.randrange(4)):  # open towards any of the four sides
+            v = [[-y, x] for x, y in v]
+        if rng.chance(0.5):
+            # given relative to its centroid (which, for a thin U / L, lies outside the outline): the reference point of
+            # the placed shape is then NOT on the shape
+            cx = sum(p[0] for p in v) / len(v)
+            cy = sum(p[1] for p in v) / len(v)
+            v = [[x - cx, y - cy] for x, y in v]
         return {"t": "poly", "v": v}
     if t == "poly":
         n = rng.randint(3, 6)
